@@ -343,11 +343,30 @@ def assemble(unit_dir, mode='verify'):
 
     g = Gen()
     fns = []        # per extracted fn: dict(path, stub, clauses, first_line, last_line, probes)
-    info = {'rewrites': {}, 'types': [], 'stubs': [], 'replacements': [], 'hints_dropped': [], 'probes': []}
+    info = {'rewrites': {}, 'types': [], 'stubs': [], 'replacements': [], 'hints_dropped': [], 'probes': [], 'auto_specs': []}
+    # std integer helpers without a vstd specification (prelude/int_ops.vrs): added one by one when the EXTRACTED code calls them and
+    # the template does not specify them itself
+    code_text = ' '.join(re.sub(r'\s+', '', r.get('text') or '') for r in resp)
+    tpl_text = open(tpl).read()
+    auto = []
+    ap = os.path.join(VERIF, 'prelude', 'int_ops.vrs')
+    if os.path.exists(ap):
+        al = open(ap).read().split('\n')
+        for n, l in enumerate(al):
+            m = re.match(r'//@auto `([^`]+)` (\S+)', l)
+            if m and m.group(1) in code_text and ('[%s]' % m.group(2)) not in tpl_text:
+                auto.append((m.group(2), al[n + 1]))
+    auto_done = not auto
     for kind, c in chunks:
         if kind == 'raw':
             for ln, t in c:
                 g.add(t, ('tpl', ln))
+                if not auto_done and re.match(r'\s*verus!\s*\{', t):
+                    for name, spec in auto:
+                        g.add('// auto-added from prelude/int_ops.vrs (the extracted code calls %s)' % name, ('auto', name))
+                        g.add(spec, ('auto', name))
+                        info['auto_specs'].append(name)
+                    auto_done = True
         elif kind == 'type':
             r = resp[idx[id(c)]]
             real = set(r['derives'])
